@@ -36,7 +36,8 @@ func init() {
 	// ---- C03: every public operation on an expired-but-unswept key ----
 	plans["C03"] = func(thorough bool) []*Job {
 		var jobs []*Job
-		kinds := []string{"expired-observed", "expired-resurrected"}
+		// loader-calls: an expired entry handed to the loader as the old value of a *re*load is "reported as present"
+		kinds := []string{"expired-observed", "expired-resurrected", "loader-calls"}
 		_ = kinds
 		cfgs03 := featureCfgs(true)
 		// clock values beyond 2^62 (deadline arithmetic close to the saturation point) with an ordinary TTL
@@ -216,6 +217,7 @@ func init() {
 			{Expiry: "writing", TTL: 100, Refresh: "writing", RefreshTTL: 40, ClockStart: 1 << 40},
 			{MaxSize: 4, Expiry: "writing", TTL: 100, Refresh: "writing", RefreshTTL: 40, ClockStart: 1 << 40},
 			{Expiry: "creating", TTL: 100, Refresh: "creating", RefreshTTL: 40, ClockStart: 1 << 40},
+			{CancelledCtx: true},
 		}
 		var lists []string
 		ks := []int{1, 2, 3}
@@ -419,6 +421,8 @@ func init() {
 			{MaxSize: 2, Expiry: "writing", TTL: 100, Refresh: "writing", RefreshTTL: 40, ClockStart: 1 << 40},
 			{Expiry: "accessing", TTL: 100, ClockStart: 1 << 40},
 			{MaxSize: 2, Executor: "deferred"},
+			// every loading call is made with a context that is already cancelled: the loader is still invoked (and counted) exactly as otherwise
+			{Refresh: "writing", RefreshTTL: 40, ClockStart: 1 << 40, CancelledCtx: true},
 		} {
 			a := baseAlphabet([]int{1, 2, 3}, cfg, true)
 			a = append(a, "refresh 1 val", "refresh 2 err")
